@@ -16,6 +16,7 @@ REQUIRED_COUNTERS = ["episodes", "c08_selections_checked", "c08_feature_checks"]
 MIN_NONTRIVIAL = {"quick": 2000, "thorough": 20000}
 WORKERS = {"quick": 12, "thorough": 16}
 BUDGET_S = {"quick": 400, "thorough": 3000}
+THOROUGH_ROUNDS = 8
 
 
 def cases(tier, seed):
